@@ -26,7 +26,88 @@ fn nullable(p: &Pat) -> bool {
     }
 }
 
-fn eval_grammar(cli: &Path, dir: &Path, text: &str, inputs: &[String], nullable_spec: bool, tape_hex: &str, tl: &mut Tally) {
+/// Child side of the isolated run: `lv __lexrun <job.json>`; one JSON line per
+/// input, flushed, so the parent knows which input never returned.
+pub fn hidden_lexrun(args: &[String]) -> i32 {
+    use std::io::Write;
+    let Some(job) = args.first().and_then(|p| std::fs::read_to_string(p).ok()).and_then(|t| serde_json::from_str::<Value>(&t).ok()) else {
+        eprintln!("__lexrun: cannot read job file");
+        return 2;
+    };
+    let rs = match std::fs::read_to_string(job["rs"].as_str().unwrap_or("")) {
+        Ok(t) => t,
+        Err(e) => {
+            eprintln!("__lexrun: {e}");
+            return 2;
+        }
+    };
+    let real = match extract(&rs).and_then(RealLexer::new) {
+        Ok(r) => r,
+        Err(e) => {
+            println!("{}", json!({"fatal": e}));
+            return 0;
+        }
+    };
+    let out = std::io::stdout();
+    for input in job["inputs"].as_array().cloned().unwrap_or_default() {
+        let input = input.as_str().unwrap_or("");
+        let line = match progress_check(&real, input) {
+            Ok(p) => json!({"ok": true, "tokens": p.tokens, "invalid": p.ended_invalid}),
+            Err((sig, what)) => json!({"ok": false, "sig": sig, "what": what}),
+        };
+        let mut o = out.lock();
+        let _ = writeln!(o, "{line}");
+        let _ = o.flush();
+    }
+    0
+}
+
+/// progress_check for every input; `isolate` = in a child process under a
+/// watchdog (used when a *skip* pattern can match the empty string: a lexer
+/// that spins inside one `next()` call cannot be observed from inside).
+fn check_inputs(
+    exe: &Path,
+    dir: &Path,
+    rs: &str,
+    inputs: &[String],
+    isolate: bool,
+) -> Result<Vec<Result<crate::lexmodel::Progress, (String, String)>>, (usize, String)> {
+    if !isolate {
+        let real = extract(rs).and_then(RealLexer::new).map_err(|e| (usize::MAX, e))?;
+        return Ok(inputs.iter().map(|i| progress_check(&real, i)).collect());
+    }
+    let job = dir.join("lexrun.json");
+    let rs_path = dir.join("g.rs");
+    let _ = std::fs::write(&rs_path, rs);
+    let _ = std::fs::write(&job, json!({"rs": rs_path, "inputs": inputs}).to_string());
+    let out = crate::run::Cmd::new(exe).arg("__lexrun").arg(job.as_os_str()).timeout_s(20).run();
+    let mut res = vec![];
+    for line in out.stdout.lines() {
+        let Ok(v) = serde_json::from_str::<Value>(line) else { continue };
+        if let Some(f) = v["fatal"].as_str() {
+            return Err((usize::MAX, f.to_string()));
+        }
+        if v["ok"] == true {
+            res.push(Ok(crate::lexmodel::Progress {
+                tokens: v["tokens"].as_u64().unwrap_or(0) as usize,
+                calls: 0,
+                ended_invalid: v["invalid"] == true,
+            }));
+        } else {
+            res.push(Err((v["sig"].as_str().unwrap_or("").to_string(), v["what"].as_str().unwrap_or("").to_string())));
+        }
+    }
+    if res.len() < inputs.len() {
+        let why = match out.exit {
+            crate::run::Exit::Timeout => "did not return within the 20 s watchdog".to_string(),
+            other => format!("child ended with {other:?}: {}", out.stderr.lines().last().unwrap_or("")),
+        };
+        return Err((res.len(), why));
+    }
+    Ok(res)
+}
+
+fn eval_grammar(cli: &Path, exe: &Path, dir: &Path, text: &str, inputs: &[String], nullable_spec: bool, isolate: bool, tape_hex: &str, tl: &mut Tally) {
     let rs = match run_lalrpop(cli, dir, text) {
         LalrOut::Accepted(rs) => rs,
         LalrOut::Timeout => {
@@ -53,19 +134,31 @@ fn eval_grammar(cli: &Path, dir: &Path, text: &str, inputs: &[String], nullable_
             "observed": observed,
         })
     };
-    let real = match extract(&rs).and_then(RealLexer::new) {
+    let results = match check_inputs(exe, dir, &rs, inputs, isolate) {
         Ok(r) => r,
-        Err(e) => {
+        Err((usize::MAX, e)) => {
             tl.violation("C08/lexer/tables-unusable", &e, replay("", json!(e)));
+            return;
+        }
+        Err((k, why)) => {
+            // no deterministic evidence from inside the process: inconclusive
+            tl.inconclusive += 1;
+            tl.infra.push(format!(
+                "INCONCLUSIVE C08 lexer: `next()` {why} on input {:?} (a skip pattern of this grammar can match the empty string):\n{text}",
+                inputs.get(k).cloned().unwrap_or_default()
+            ));
             return;
         }
     };
     if nullable_spec {
         tl.class("terminal_or_skip_can_match_empty");
     }
-    for input in inputs {
+    if isolate {
+        tl.class("skip_pattern_can_match_empty (run in a child process under a watchdog)");
+    }
+    for (input, res) in inputs.iter().zip(results) {
         tl.evals += 1;
-        match progress_check(&real, input) {
+        match res {
             Ok(p) => {
                 if p.ended_invalid {
                     tl.class("input_rejected");
@@ -95,8 +188,9 @@ fn eval_tape(ctx: &Ctx, idx: usize, tape: &[u8]) -> Tally {
     inputs.push("aac".into());
     inputs.push(std::iter::repeat("ab \u{e9}").take(1 + t.below(12)).collect());
     let nullable_spec = pats.iter().any(nullable);
+    let isolate = spec.entries().iter().any(|e| e.term.is_none() && nullable(&e.pat));
     let dir = ctx.work.join(format!("l{idx}"));
-    eval_grammar(&ctx.cli, &dir, &spec.to_lalrpop(), &inputs, nullable_spec, &tape::hex(tape), &mut tl);
+    eval_grammar(&ctx.cli, &ctx.exe, &dir, &spec.to_lalrpop(), &inputs, nullable_spec, isolate, &tape::hex(tape), &mut tl);
     let _ = std::fs::remove_dir_all(&dir);
     tl
 }
@@ -106,7 +200,8 @@ pub fn replay_case(ck: &mut Checker, v: &Value) {
     let input = v["input"].as_str().unwrap_or("").to_string();
     let mut tl = Tally::default();
     let dir = ck.ctx.work.join("replay_lexer");
-    eval_grammar(&ck.ctx.cli, &dir, &text, &[input], true, v["tape_hex"].as_str().unwrap_or(""), &mut tl);
+    let (cli, exe) = (ck.ctx.cli.clone(), ck.ctx.exe.clone());
+    eval_grammar(&cli, &exe, &dir, &text, &[input], true, true, v["tape_hex"].as_str().unwrap_or(""), &mut tl);
     tl.skips.clear();
     tl.samples.clear();
     tl.merge(ck);
